@@ -256,7 +256,7 @@ def crash_check(pid, tier, seed, fams=None, what=None, desc=None, during=None, m
     if mc:
         mc(res, q)
     extra = [] if q else ["-alltorn"]
-    shards = fam_shards([(f, a + extra) for f, a in fams], seed, 1 if q else 5, 2 if q else 3, 12 if q else 20)
+    shards = fam_shards([(f, a + extra) for f, a in fams], seed, 1 if q else 4, 2, 12 if q else 16)
     # conformance of the commit protocol itself: hook-recorded file mutations of ordinary histories against Commit.tla
     shards += [["%proto"] + a for a in fam_shards(proto or [], seed + 3, 1 if q else 8, 3, 30 if q else 80)]
     rs = core.drive_and_validate(res, shards, core.dev_set(), what, desc)
